@@ -180,8 +180,16 @@ def skeleton_exact(ctx: Ctx) -> None:
             return d, np.array([float(k)]), np.array([k])
         sim.align = al
         other = (pts[::-1] @ random_rotation(rng).T).flatten()
+        # how many (furthest, perpendicular) pairings there are to try — from the class's own helpers
+        expected = 0
+        for i0, i1 in sim.generate_pairs(sim.get_furthest_from_centre(coords.position), sim.get_furthest_from_centre(other)):
+            expected += len(sim.get_furthest_perpendicular(coords.position, i0)) * len(sim.get_furthest_perpendicular(other, i1))
         out = sim.test_exact_same(coords, other)
         got = int(out[2][0]) if out[1].size == 1 else 0
+        if not any(d < 1 / 8 for d in seq) and len(seq) != expected:
+            ctx.diverge("test_exact_same:candidates-not-all-tried", f"no alignment was below the criterion, yet only "
+                        f"{len(seq)} of the {expected} (furthest, perpendicular) pairings were tried",
+                        {"tried": len(seq), "expected": expected, "coords1": coords.position.tolist(), "coords2": other.tolist()})
         lines.append(f"tes 1/8 {frac(1e30)} " + (",".join(frac(d) for d in seq) if seq else "-"))
         expect.append((got, {"alignments": seq, "returned_index": got}))
     outl = run_driver("Align", lines)
@@ -409,6 +417,26 @@ def predicates(ctx: Ctx) -> None:
             ctx.stats.case({"pred": "large-cluster", "n": n}, True)
             check_alignment(ctx, sim, AtomicCoordinates(labels, pts.flatten().copy()), labels, other,
                             f"cluster-{n}", True)
+        # several atoms (not symmetry-equivalent) within the 0.05 "furthest from the centre" window: every
+        # pairing of them has to be tried by the identity test
+        p13 = REPO / "tests" / "test_data" / "lj13.xyz"
+        ico = np.genfromtxt(str(p13)).reshape(-1, 3) if p13.exists() else None
+        for _ in range(ctx.scale(40, 200) * deep):
+            if ico is not None and rng.random() < 0.5:
+                pts = ico + np.array([[rng.uniform(-0.02, 0.02) for _ in range(3)] for _ in range(13)])
+            else:
+                pts = []
+                while len(pts) < 13:
+                    v = np.array([rng.gauss(0, 1) for _ in range(3)])
+                    v = v / np.linalg.norm(v) * (2.0 + rng.uniform(-0.02, 0.02))
+                    if all(np.linalg.norm(v - q) > 0.9 for q in pts):
+                        pts.append(v)
+                pts = np.array(pts)
+            perm = list(range(13)); rng.shuffle(perm)
+            other = (pts[perm] @ random_rotation(rng).T + np.array([rng.uniform(-2, 2) for _ in range(3)])).flatten()
+            ctx.stats.case({"pred": "near-spherical-shell"}, True)
+            check_alignment(ctx, make_sim(0.1), AtomicCoordinates(['C'] * 13, pts.flatten().copy()), ['C'] * 13,
+                            other, "shell-13", True)
         # LJ13 icosahedron and the molecules of the test data
         import ase.io
         p13 = REPO / "tests" / "test_data" / "lj13.xyz"
